@@ -67,7 +67,35 @@ METHOD_MESSAGES = {
     'hpm.Hpm.get_upgrade_status': ['GetUpgradeStatus'], 'hpm.Hpm.get_target_upgrade_capabilities': ['GetTargetUpgradeCapabilities'],
     'hpm.Hpm.query_selftest_results': ['QuerySelftestResults'], 'hpm.Hpm.query_rollback_status': ['QueryRollbackStatus'],
     'hpm.Hpm.get_component_property': ['GetComponentProperties'],
+    'dcmi.Dcmi.get_dcmi_capabilities': ['GetDcmiCapabilities'], 'dcmi.Dcmi.get_power_reading': ['GetPowerReading'],
+    'dcmi.Dcmi.get_dcmi_sensor_record_ids': ['GetDcmiSensorInfo'],
 }
+
+
+def dcmi_sensor_walk():
+    """get_dcmi_sensor_record_ids: the entity ids it walks (DCMI_ENTITIES, a tuple of constant names) and the constant
+    keyword arguments of its one send_message_with_name('GetDcmiSensorInfo', ...) call."""
+    import pyipmi.dcmi as dmod
+    fn = _class_methods('pyipmi/dcmi.py', 'Dcmi').get('get_dcmi_sensor_record_ids')
+    if fn is None:
+        raise lean.TieBroken('dcmi.Dcmi.get_dcmi_sensor_record_ids: method missing')
+    ents = None
+    for node in ast.walk(fn):
+        if isinstance(node, ast.Assign) and len(node.targets) == 1 and _is_param(node.targets[0], 'DCMI_ENTITIES'):
+            if not isinstance(node.value, ast.Tuple):
+                raise lean.TieBroken('get_dcmi_sensor_record_ids: DCMI_ENTITIES is not a tuple')
+            ents = [_const(e, dmod, None, 'DCMI_ENTITIES') for e in node.value.elts]
+    loops = [n for n in ast.walk(fn) if isinstance(n, ast.For)]
+    if ents is None or len(loops) != 1 or not _is_param(loops[0].iter, 'DCMI_ENTITIES') or not _is_param(loops[0].target, 'entity_id'):
+        raise lean.TieBroken('get_dcmi_sensor_record_ids: not one loop `for entity_id in DCMI_ENTITIES`')
+    calls = [n for n in ast.walk(fn) if isinstance(n, ast.Call) and isinstance(n.func, ast.Attribute)
+             and n.func.attr == 'send_message_with_name']
+    if len(calls) != 1 or len(calls[0].args) != 1:
+        raise lean.TieBroken('get_dcmi_sensor_record_ids: not exactly one send_message_with_name(name, **kw)')
+    kw = dict((k.arg, k.value) for k in calls[0].keywords)
+    if sorted(kw) != ['entity_id', 'entity_instance', 'entity_instance_start', 'sensor_type'] or not _is_param(kw['entity_id'], 'entity_id'):
+        raise lean.TieBroken('get_dcmi_sensor_record_ids: keyword arguments changed: %s' % sorted(kw))
+    return ents, [_const(kw[k], dmod, None, k) for k in ('sensor_type', 'entity_instance', 'entity_instance_start')]
 
 
 def _message_names(fn):
@@ -262,6 +290,7 @@ def snapshot():
     t['lanMac'], t['lanVlan'] = int(lanmod.LAN_PARAMETER_MAC_ADDRESS), int(lanmod.LAN_PARAMETER_802_1Q_VLAN_ID)
     import pyipmi.hpm as hpmmod
     t['hpmDescriptionSelector'] = int(hpmmod.PROPERTY_DESCRIPTION_STRING)
+    t['dcmiEntities'], (t['dcmiSensorType'], t['dcmiEntityInstance'], t['dcmiEntityInstanceStart']) = dcmi_sensor_walk()
     t['layouts'] = message_layouts()
     return t
 
@@ -305,8 +334,10 @@ def render(t):
     o.append('/-- ctrl passed by set_fru_activation_lock, clear_fru_activation_lock, set_fru_deactivation_lock, clear_fru_deactivation_lock -/')
     o.append('def policyCtrl : List Nat := ' + _nats(t['policyCtrl']))
     for k in ('ledBlinkLo', 'ledBlinkHi', 'ledOff', 'ledOn', 'ledLampTest', 'bootFlagsSelector', 'lanIp', 'lanIpSrc', 'lanMac', 'lanVlan',
-              'hpmDescriptionSelector'):
+              'hpmDescriptionSelector', 'dcmiSensorType', 'dcmiEntityInstance', 'dcmiEntityInstanceStart'):
         o.append('def %s : Nat := %d' % (k, t[k]))
+    o.append('/-- dcmi.Dcmi.get_dcmi_sensor_record_ids: DCMI_ENTITIES, in the order they are asked -/')
+    o.append('def dcmiEntities : List Nat := ' + _nats(t['dcmiEntities']))
     o.append('/-- LedState.FUNCTION_{OFF, BLINKING, ON, LAMP_TEST} -/')
     o.append('def ledStateFn : List Nat := ' + _nats(t['ledStateFn']))
     o.append('')
